@@ -40,15 +40,18 @@ LEVEL_TEXT = (
 )
 LEVEL_NOTE = (
     "trusted: vf.canon; the catalogue of constructor arguments / inputs per algorithm in vf/c20_driver.py; "
-    "bounded: 7 late-type kinds, 7 expression contexts on one triangle mesh, histories of at most ~40 steps"
+    "bounded: 7 late-type kinds, 7 expression contexts on one triangle mesh, histories of at most ~300 steps"
 )
 RULE = (
-    "cases 0..n_enum-1 enumerate (algorithm entry x late-type kind [x pattern in the thorough tier]); patterns: "
-    "all = instantiate+hold, use on old types, register, use fresh and held instance on the late type, use on old "
-    "types again; use / inst / held = the three ingredients separately; later cases are random histories over "
-    "2-3 kinds and 2-5 algorithms.  A U step is distinct by (algorithm, target kind, context, fresh/held, what "
-    "preceded the registration) and non-trivial when the late-type instance reached a method of the algorithm "
-    "object in at least one of the two processes"
+    "the first cases enumerate (group of 14 algorithm entries x late-type kind) with the pattern `all` = instantiate "
+    "and keep every class of the group, use every entry on old types in all its contexts, register the kind, use "
+    "fresh and kept instances on the late type in all contexts, use on old types again (grouping shuffled by the "
+    "seed; every entry meets every kind); the thorough tier adds every (entry, kind, pattern) on its own with the "
+    "patterns all / use / inst / held (used before, only instantiated before, instance kept across the "
+    "registration); the remaining cases are random histories of 8-25 steps over 1-3 kinds and 2-5 entries.  A U step "
+    "is distinct by (entry, target kind, context, fresh/kept instance, how the entry was touched before the "
+    "registration) and non-trivial when the late-type instance reached a method of the algorithm object in at least "
+    "one of the two processes"
 )
 ASSUMPTIONS = [
     "the type-first process (all registrations before any algorithm use, after `import ufl`) defines the expected outcome",
@@ -72,13 +75,13 @@ FLOORS = {
         "ref_new_ok": 3000,
     },
     "thorough": {
-        "histories": 1200,
-        "enumerated_histories": 600,
-        "random_histories": 400,
-        "u_steps_compared": 25000,
-        "u_new_compared": 14000,
-        "u_new_dispatched": 9000,
-        "ref_new_ok": 7000,
+        "histories": 600,
+        "enumerated_histories": 350,
+        "random_histories": 200,
+        "u_steps_compared": 15000,
+        "u_new_compared": 8000,
+        "u_new_dispatched": 6000,
+        "ref_new_ok": 5500,
     },
 }
 EXHAUSTIVE = False
